@@ -11,8 +11,11 @@ import (
 
 	"google.golang.org/grpc/attributes"
 	"google.golang.org/grpc/balancer"
+	"google.golang.org/grpc/balancer/weightedtarget"
 	"google.golang.org/grpc/balancer/weightedtarget/weightedaggregator"
 	"google.golang.org/grpc/connectivity"
+	"google.golang.org/grpc/internal/balancer/stub"
+	iserviceconfig "google.golang.org/grpc/internal/serviceconfig"
 	"google.golang.org/grpc/internal/wrr"
 	"google.golang.org/grpc/resolver"
 )
@@ -26,6 +29,7 @@ import (
 //	[5, v]                   store v into the current picker's next (in-package)-> [1] | [0]
 //	[7, k]                   k picks on the current picker                     -> [k, pos*16+state ...] | [0]
 //	[10, id, w] [11, id] [12, id, s]  weightedaggregator Add/Remove/UpdateState -> [nupd, state]
+//	[13, so, sb, sn]         real weighted_target balancer: child policy NAME of a target changes -> [state x3]
 //
 // update word: [nupd, aggState, len(pickers), isErrPicker, nClosed, nIds, ids(sorted)..., 2*nChildren, (id, state) sorted by id...]
 type vAggregateCC struct {
@@ -153,6 +157,53 @@ func (env *vAggregateEnv) updateWord() []int64 {
 	return w
 }
 
+// vAggregateRename drives the real weighted_target balancer (fresh per op): targets a and b
+// with stub child policies; a reports so, b reports sb; then a config update changes only the
+// child policy NAME of a (weighted_target removes the old child and adds a new one); then the
+// new child of a reports sn.  Returns the aggregate state the channel holds after each phase.
+var vAggregateStubs = map[string]*stub.BalancerData{} // latest child built per policy name
+var vAggregateStubsOnce bool
+
+func vAggregateRename(so, sb, sn int64) []int64 {
+	names := []string{"verif-agg-a1", "verif-agg-a2", "verif-agg-b"}
+	if !vAggregateStubsOnce {
+		vAggregateStubsOnce = true
+		for _, n := range names {
+			n := n
+			stub.Register(n, stub.BalancerFuncs{
+				Init: func(bd *stub.BalancerData) { vAggregateStubs[n] = bd },
+			})
+		}
+	}
+	cc := &vAggregateCC{}
+	b := balancer.Get(weightedtarget.Name).Build(cc, balancer.BuildOptions{})
+	defer b.Close()
+	last := func() int64 {
+		if len(cc.updates) == 0 {
+			return -1
+		}
+		return int64(cc.updates[len(cc.updates)-1].ConnectivityState)
+	}
+	cfg := func(aPolicy string) *weightedtarget.LBConfig {
+		return &weightedtarget.LBConfig{Targets: map[string]weightedtarget.Target{
+			"a": {Weight: 1, ChildPolicy: &iserviceconfig.BalancerConfig{Name: aPolicy}},
+			"b": {Weight: 1, ChildPolicy: &iserviceconfig.BalancerConfig{Name: "verif-agg-b"}},
+		}}
+	}
+	report := func(name string, s int64) {
+		vAggregateStubs[name].ClientConn.UpdateState(balancer.State{ConnectivityState: connectivity.State(s), Picker: &vAggregatePicker{st: s}})
+	}
+	b.UpdateClientConnState(balancer.ClientConnState{BalancerConfig: cfg("verif-agg-a1")})
+	report("verif-agg-a1", so)
+	report("verif-agg-b", sb)
+	o := []int64{last()}
+	b.UpdateClientConnState(balancer.ClientConnState{BalancerConfig: cfg("verif-agg-a2")})
+	o = append(o, last())
+	report("verif-agg-a2", sn)
+	o = append(o, last())
+	return o
+}
+
 func vAggregateWF(op []int64) bool {
 	if len(op) == 0 {
 		return false
@@ -166,6 +217,8 @@ func vAggregateWF(op []int64) bool {
 		return len(op) == 4
 	case 4, 5, 7, 11:
 		return len(op) == 2
+	case 13:
+		return len(op) == 4
 	}
 	return false
 }
@@ -268,6 +321,10 @@ func vAggregateExec(cfg []int64, ops [][]int64) ([][]int64, bool, []string) {
 				tags["rr"] = true
 			}
 			obs = append(obs, w)
+		case 13:
+			obs = append(obs, vAggregateRename(op[1], op[2], op[3]))
+			tags["wt-rename"] = true
+			nt = true
 		case 10, 11, 12:
 			id := "c" + strconv.FormatInt(op[1], 10)
 			switch op[0] {
@@ -353,6 +410,15 @@ func vAggregateGen(r *vRand, tier string, idx int) ([]int64, [][]int64) {
 				ops = append(ops, []int64{5, (1 << 32) - 1 - back}, []int64{7, n}, []int64{5, (1 << 32) - 1 - back}, []int64{7, 3*n + 1})
 			}
 		}
+	case idx == 4:
+		// every (old state of the replaced child, other child, state of the new child)
+		for a := int64(0); a < 4; a++ {
+			for b := int64(0); b < 4; b++ {
+				for c := int64(0); c < 4; c++ {
+					ops = append(ops, []int64{13, a, b, c})
+				}
+			}
+		}
 	case idx == 3:
 		// every assignment of states 0..4 to three children, then n+1 picks
 		for a := int64(0); a < 5; a++ {
@@ -424,7 +490,10 @@ func vAggregateGen(r *vRand, tier string, idx int) ([]int64, [][]int64) {
 			}
 		}
 	default:
-		// weighted aggregator
+		// weighted aggregator, and child-policy renames through the real weighted_target balancer
+		for i := 0; i < 6; i++ {
+			ops = append(ops, []int64{13, r.PickI64(0, 1, 2, 3), r.PickI64(0, 1, 2, 3), r.PickI64(0, 1, 2, 3)})
+		}
 		maxID := int64(1 + r.Intn(8))
 		n := 30 + r.Intn(100)
 		for i := 0; i < n; i++ {
